@@ -155,6 +155,7 @@ type vGen struct {
 	r        *vRand
 	nT, nTab int
 	text     bool
+	chain    []int // two tables, the second of which expands an address the first one produced
 }
 
 func vB(s string) string { return cBytes([]byte(s)) }
@@ -180,6 +181,13 @@ func vNN(l []config.Node) []config.Node {
 func (g *vGen) modify() (config.Node, string) {
 	var ch []config.Node
 	var ids []int
+	if g.chain != nil && g.r.chance(60) {
+		for _, tab := range g.chain {
+			ch = append(ch, config.Node{Name: "replace_rcpt", Args: []string{fmt.Sprintf("&mt%d", tab)}})
+			ids = append(ids, 10+tab)
+		}
+		return config.Node{Name: "modify", Children: ch}, vNodeTerm("DModify", nil, ids, true, nil)
+	}
 	for i := 0; i < 1+g.r.intn(2); i++ {
 		tab := g.r.intn(g.nTab)
 		if g.r.chance(75) {
@@ -480,6 +488,18 @@ func TestVerif_C04(t *testing.T) {
 			mts = append(mts, mt)
 		}
 		g := &vGen{r: r, nT: nT, nTab: nTab}
+		chainKey := ""
+		if nTab >= 2 && r.chance(25) {
+			// chained expansions in one scope: the first table turns one address into several, the second
+			// one expands the first (not the last) of those
+			i := r.intn(nTab)
+			j := (i + 1 + r.intn(nTab-1)) % nTab
+			chainKey = "list@example.org"
+			mts[i].m[chainKey] = []string{"alice@corp.example", "bob@example.org", "postmaster@sub.example.org"}
+			mts[j].m["alice@corp.example"] = []string{"alice@sub.example.org", "list@corp.example"}
+			g.chain = []int{i, j}
+			stats["chained-expansion"]++
+		}
 		depth := r.intn(3)
 		nodes, terms := g.root(depth)
 		viaText := false
@@ -558,6 +578,9 @@ func TestVerif_C04(t *testing.T) {
 				}
 				for j := 0; j < 1+r.intn(3); j++ {
 					m.tos = append(m.tos, vAddr(r))
+				}
+				if chainKey != "" && r.chance(70) {
+					m.tos = append(m.tos, chainKey)
 				}
 				v := vMsg{from: vRespell(r, m.from)}
 				for _, to := range m.tos {
